@@ -92,6 +92,31 @@ def flag_table() -> tuple[list[str], dict[str, str]]:
     return sorted(set(flags)), skipped
 
 
+def noop_flag_partners() -> dict[str, str]:
+    """flag -> opposite flag of the same dest, for flags that merely restate the default (e.g.
+    --allow-untyped-defs): they only have an observable effect after their opposite, so they are
+    toggled as [opposite] vs [opposite, flag] (later wins on the command line)."""
+    import argparse
+
+    import mypy.main as mm
+    from mypy.options import Options
+
+    p, _, _ = mm.define_options(stdout=io.StringIO(), stderr=io.StringIO())
+    o = Options()
+    by_dest: dict[str, dict[bool, str]] = {}
+    for a in p._actions:
+        if isinstance(a, (argparse._StoreTrueAction, argparse._StoreFalseAction)) and a.option_strings:
+            val = isinstance(a, argparse._StoreTrueAction)
+            by_dest.setdefault(a.dest, {})[val] = a.option_strings[-1]
+    out = {}
+    for dest, m in by_dest.items():
+        if len(m) != 2 or dest.startswith("special-opts") or not hasattr(o, dest):
+            continue
+        default = bool(getattr(o, dest))
+        out[m[default]] = m[not default]
+    return out
+
+
 def group_flags(tokens: list[str]) -> list[list[str]]:
     groups: list[list[str]] = []
     for t in tokens:
@@ -295,12 +320,18 @@ def programs_table_sweep(ctx: Ctx, table: list[str]) -> list[dict]:
             if pv:
                 base = ["--python-version", f"{pv[0]}.{pv[1]}"]
             bases.append((c.id, f, base))
+    partners = noop_flag_partners()
     for pid, f, base in bases:
         pairs = []
         for flag in table:
             if flag in base:
                 continue
-            pairs.append((flag, base, base + [flag]))
+            opp = partners.get(flag)
+            if opp is not None and opp in table and opp not in base:
+                # a flag restating the default: observable only as an override of its opposite
+                pairs.append((flag, base + [opp], base + [opp, flag]))
+            else:
+                pairs.append((flag, base, base + [flag]))
         # config-file spellings of the same booleans: [mypy] and [mypy-main] sections
         root_files = {}
         if pid in GENERIC or ctx.thorough:
